@@ -2,7 +2,7 @@ from checks.generic import standard
 
 def run(ctx):
     return standard(ctx,
-        props=[("Props.C04", ["c04_accept_sound", "c04_matrix", "c04_single_claim", "c04_single_claim_resigned",
+        props=[("Props.C04", ["c04_accept_sound", "c04_storage_both_paths", "c04_cache_arm_without_subject_refuted", "c04_storage_data_type_unbound", "c04_matrix", "c04_single_claim", "c04_single_claim_resigned",
                               "c04_no_side_effect", "c04_update_keeps_expiry", "c04_cli_send_no_extension",
                               "c04_old_storage_exp_refuted"])],
         harness=("TestVerif_C04", ["kmd/common.go", "kmd/creds.go", "kmd/consts.go", "kmd/tokens.go", "kmd/c04.go"]),
